@@ -110,6 +110,8 @@ where
                 write_tx,
             } => {
                 drop(write_tx);
+                #[cfg(noodles_verif)]
+                crossbeam_channel::sim::before_join(&writer_handle);
                 writer_handle.join().unwrap()
             }
             State::Done => panic!("invalid state"),
@@ -187,6 +189,8 @@ where
     W: Write + Send + 'static,
 {
     use super::writer::{BGZF_EOF, write_frame};
+    #[cfg(noodles_verif)]
+    use crossbeam_channel::sim::thread;
 
     thread::spawn(move || {
         while let Ok(buffered_rx) = write_rx.recv() {
